@@ -13,6 +13,10 @@ SEP, NL, OTH = "S", "N", "O"
 ALPHABET = (SEP, NL, OTH)
 
 
+class RxSyntax(Exception):
+    """The text is rejected by the regex crate's parser (not merely outside the subset understood here)."""
+
+
 class RxError(Exception):
     pass
 
@@ -210,6 +214,8 @@ class Parser:
             if self.peek() == "-" and self.t[self.i + 1:self.i + 2] not in ("]", ""):
                 self.i += 1
                 hi = self._class_char()
+                if item[0] == "ch" and hi[0] == "ch" and ord(item[1]) > ord(hi[1]):
+                    raise RxSyntax("invalid character class range %s-%s: the start is greater than the end" % (item[1], hi[1]))
                 operands[-1].append(("range", item, hi))
             else:
                 operands[-1].append(("item", item))
